@@ -235,6 +235,21 @@ func (fr *Frame) callStatic(ins *ssa.Call, fn *ssa.Function, bindings []Val, arg
 	ex := fr.ex
 	if ex.eng.inModule(fn) && fn.Synthetic == "" {
 		fc := ex.calleeContract(fn)
+		if fc != nil && fc.Pure && fc.Assumed {
+			// in-module function assumed to be a deterministic, effect-free function of its argument values
+			if fo, ok := fn.Object().(*types.Func); ok {
+				var as []TVal
+				for _, a := range args {
+					if a.place != nil && !(a.place.kind == pkHeap && len(a.place.path) == 0) {
+						as = append(as, TVal{t: fr.materialize(st, a.place), typ: a.typ})
+					} else {
+						as = append(as, tv(a, ex))
+					}
+				}
+				ex.eng.usedExterns[fo.FullName()] = "assumed pure (in-module) [" + relFile(fc.File) + "]"
+				return tvals(ex.eng.pureAppN(ex.vc, st, fo, nil, as, nil))
+			}
+		}
 		if fc != nil && !fc.Inline {
 			return fr.callContract(ins, fn, fc, args, st)
 		}
